@@ -370,6 +370,34 @@ def r143(rep: Report, ctx: Ctx) -> None:
     rep.ob("R14.3", "the dumped list is the whole received stream", ok,
            fi=sv, node=dumps[0] if dumps else sv.node,
            detail="json.dump(list(stream) | [renamed(e) for e in stream])")
+    # writer and reader agree on the text encoding: with the default
+    # ensure_ascii=True json.dump writes pure ASCII (readable under any
+    # encoding); otherwise both sides must name the same encoding
+    dmp = dumps[0] if dumps else None
+    ea = kw(dmp, "ensure_ascii") if dmp is not None else None
+    ascii_only = ea is None or (isinstance(ea, ast.Constant)
+                                and ea.value is True)
+    w_open = [c for c in ast.walk(sv.node) if isinstance(c, ast.Call)
+              and dotted(c.func) == "open"]
+    w_enc = unparse(kw(w_open[0], "encoding")) if w_open and kw(
+        w_open[0], "encoding") is not None else None
+    rd_fns = [ctx.func("pv_job_file_to_event_sequence"),
+              ctx.func("pv_event_file_to_event")]
+    r_encs = set()
+    for rf in rd_fns:
+        for c in ast.walk(rf.node):
+            if isinstance(c, ast.Call) and dotted(c.func) == "open":
+                e_ = kw(c, "encoding")
+                r_encs.add(unparse(e_) if e_ is not None else None)
+    ok = ascii_only or (w_enc is not None and r_encs == {w_enc})
+    rep.ob("R14.3", "saved files are readable by the loader whatever the "
+           "locale", ok, fi=sv, node=dmp if dmp is not None else sv.node,
+           detail=(f"json.dump(ensure_ascii={unparse(ea) if ea is not None else 'True (default)'}), "
+                   f"writer encoding {w_enc or 'platform default'}, reader "
+                   f"encoding(s) {sorted(str(x) for x in r_encs)}"
+                   + ("" if ok else " -- non-ASCII field values are written "
+                      "in the platform's default encoding (or fail to "
+                      "encode) while the loader decodes UTF-8")))
     paths = [j for j in ast.walk(sv.node) if isinstance(j, ast.JoinedStr)]
     opens = [c for c in ast.walk(sv.node) if isinstance(c, ast.Call)
              and dotted(c.func) == "open"]
